@@ -526,4 +526,421 @@ theorem loadLines_empty (o : Opts) (n : Norm) (hn : normalise o = .ok n)
   unfold loadLines
   simp [hn, bind, Except.bind, skipBlank_none o ls hl, throw, throwThe, MonadExceptOf.throw]
 
+/-! ### written files carry their rows -/
+
+/-- options under which a line is read exactly as written: the table's delimiter, blank lines
+skipped (the default), no stripping -/
+structure Plain (o : Opts) (d : Char) : Prop where
+  delim : o.delim = d
+  skip : o.skipEmpty = true
+  sl : o.stripLine = false
+  sf : o.stripField = false
+
+/-- the data rows of a table: `csv.writer` writes an empty row as a blank line -/
+def dataRows (rows : List (List Str)) : List (List Str) := rows.filter (fun r => !r.isEmpty)
+
+theorem rstrip_crlf_append (body t : Str) (hb : NoBreak body) (ht : IsEol t) :
+    rstrip crlf (body ++ t) = body := by
+  apply rstrip_append
+  · intro c hc
+    rcases ht c hc with h | h <;> simp [crlf, h]
+  · intro c hc
+    have hmem : c ∈ body := List.mem_of_getLast? hc
+    have h1 : c ≠ '\r' := fun h => hb.1 (h ▸ hmem)
+    have h2 : c ≠ '\n' := fun h => hb.2 (h ▸ hmem)
+    simp [crlf, h1, h2]
+
+theorem procLine_plain (o : Opts) (d : Char) (hp : Plain o d) (body t : Str) (hb : NoBreak body)
+    (ht : IsEol t) : procLine o (body ++ t) = body := by
+  unfold procLine
+  simp only [hp.sl, Bool.false_eq_true, if_false]
+  exact rstrip_crlf_append body t hb ht
+
+theorem parseLine_body (o : Opts) (d : Char) (hd : GoodDelim d) (hp : Plain o d) (t : Str)
+    (f : Str) (fs : List Str) (hf : ∀ g ∈ f :: fs, NoBreak g) :
+    parseLine o (bodyOf d t (f :: fs)) = .ok (f :: fs) := by
+  unfold parseLine
+  rw [hp.delim, bodyOf_cons]
+  have := parse_rowStr d hd _ (writer_adequate d t ((f :: fs).length == 1)) f fs hf [] (by intro c hc; simp at hc)
+  rw [List.append_nil] at this
+  rw [this]
+  simp [hp.sf, bind, Except.bind, pure, Except.pure]
+
+theorem lines_written (o : Opts) (d : Char) (hd : GoodDelim d) (hp : Plain o d)
+    (t : Str) (ht : IsEol t) (htn : t ≠ []) (rows : List (List Str)) (hc : NoBreakRows rows) :
+    Lines o (rows.map (fun r => bodyOf d LF r ++ t)) (dataRows rows) := by
+  induction rows with
+  | nil => exact Lines.nil
+  | cons r rows ih =>
+    have hr := hc.head
+    have ih' := ih hc.tail
+    have hnb := bodyOf_noBreak d hd LF r hr
+    have hne : bodyOf d LF r ++ t ≠ [] := by simp [htn]
+    have hpl := procLine_plain o d hp _ t hnb ht
+    cases r with
+    | nil =>
+      simp only [List.map_cons, dataRows, List.filter_cons, List.isEmpty_nil, Bool.not_true,
+        Bool.false_eq_true, if_false]
+      refine Lines.blank _ _ _ hne ?_ ih'
+      rw [hpl]; rfl
+    | cons f fs =>
+      simp only [List.map_cons, dataRows, List.filter_cons, List.isEmpty_cons, Bool.not_false,
+        if_true]
+      refine Lines.row _ _ _ _ hne ?_ ?_ ih'
+      · rw [hpl]; exact bodyOf_ne_nil d LF _ (by simp)
+      · rw [hpl]; exact parseLine_body o d hd hp LF f fs hr
+
+/-- the decision table applied to a table (`h` = first data row of the file, `rows` = the rest) -/
+def outcome (o : Opts) (n : Norm) (h : List Str) (rows : List (List Str)) : PyM (List Record) :=
+  match headerDecision n o h with
+  | .error e => .error e
+  | .ok none => .ok []
+  | .ok (some false) => .ok ((h :: rows).map (recOf o (dataNames n h) (dataNames n h)))
+  | .ok (some true) =>
+    if n.mand && hasDup h then .error .KeyError
+    else .ok (rows.map (recOf o (h.map Key.name) (headerCn n h)))
+
+theorem loadLines_outcome (o : Opts) (hse : o.skipEmpty = true) (n : Norm) (hn : normalise o = .ok n)
+    (ls : List Str) (h : List Str) (rows : List (List Str)) (hl : Lines o ls (h :: rows)) :
+    records (loadLines o ls) = outcome o n h rows :=
+  loadLines_spec o hse n hn ls h rows hl
+
+/-- text mode, any line ending, with or without BOM -/
+theorem loadCsv_text_written (o : Opts) (hb : o.binary = false) (d : Char) (hd : GoodDelim d)
+    (hdb : d ≠ bomChar) (hp : Plain o d) (eol : Str) (he : Eol eol) (bom : Bool)
+    (all : List (List Str)) (hc : NoBreakRows all) (hbm : NoBomRows all)
+    (n : Norm) (hn : normalise o = .ok n) (h : List Str) (rows : List (List Str))
+    (hall : dataRows all = h :: rows) :
+    records (loadCsv o (withBom bom (written d eol all))) = outcome o n h rows := by
+  unfold loadCsv
+  rw [hb, physLines_text d hd hdb eol he bom all hc hbm]
+  apply loadLines_outcome o hp.skip n hn
+  rw [← hall]
+  exact lines_written o d hd hp ['\n'] (Eol.isEol (Or.inl rfl)) (by simp) all hc
+
+/-- binary mode (no BOM) -/
+theorem loadCsv_bin_written (o : Opts) (hb : o.binary = true) (d : Char) (hd : GoodDelim d)
+    (hp : Plain o d) (eol : Str) (he : Eol eol)
+    (all : List (List Str)) (hc : NoBreakRows all)
+    (n : Norm) (hn : normalise o = .ok n) (h : List Str) (rows : List (List Str))
+    (hall : dataRows all = h :: rows) :
+    records (loadCsv o (written d eol all)) = outcome o n h rows := by
+  unfold loadCsv
+  rw [hb, physLines_bin d hd eol he all hc]
+  apply loadLines_outcome o hp.skip n hn
+  rw [← hall]
+  exact lines_written o d hd hp eol he.isEol he.ne_nil all hc
+
+theorem loadCsv_text_empty (o : Opts) (hb : o.binary = false) (d : Char) (hd : GoodDelim d)
+    (hdb : d ≠ bomChar) (hp : Plain o d) (eol : Str) (he : Eol eol) (bom : Bool)
+    (all : List (List Str)) (hc : NoBreakRows all) (hbm : NoBomRows all)
+    (n : Norm) (hn : normalise o = .ok n) (hall : dataRows all = []) :
+    loadCsv o (withBom bom (written d eol all)) = .error .EOFError := by
+  unfold loadCsv
+  rw [hb, physLines_text d hd hdb eol he bom all hc hbm]
+  apply loadLines_empty o n hn
+  rw [← hall]
+  exact lines_written o d hd hp ['\n'] (Eol.isEol (Or.inl rfl)) (by simp) all hc
+
+/-! ### records in closed form -/
+
+/-- the cell of `row` in the column called `c` of the header `hdr`; `none` when the row is too
+short (or there is no such column) -/
+def cellAt : List Str → List Str → Str → Option Str
+  | [], _, _ => none
+  | _ :: _, [], _ => none
+  | h :: hs, x :: xs, c => if h = c then some x else cellAt hs xs c
+
+theorem dictGet_zipPad (h : List Str) (r : List Str) (c : Str) :
+    dictGet (Key.name c) (zipPad (h.map Key.name) r) = cellAt h r c := by
+  induction h generalizing r with
+  | nil => simp [zipPad, dictGet, cellAt]
+  | cons x xs ih =>
+    cases r with
+    | nil =>
+      simp only [List.map_cons, zipPad, dictGet, cellAt, Key.name.injEq]
+      have := ih []
+      split
+      · rfl
+      · rw [this]; cases xs <;> simp [cellAt]
+    | cons y ys =>
+      simp only [List.map_cons, zipPad, dictGet, cellAt, Key.name.injEq]
+      rw [ih ys]
+
+theorem zipPad_eq_cellAt (h : List Str) (hn : h.Nodup) (r : List Str) :
+    zipPad (h.map Key.name) r = h.map (fun c => (Key.name c, cellAt h r c)) := by
+  induction h generalizing r with
+  | nil => simp [zipPad]
+  | cons x xs ih =>
+    rw [List.nodup_cons] at hn
+    have hne : ∀ c ∈ xs, x ≠ c := fun c hc e => hn.1 (e ▸ hc)
+    cases r with
+    | nil =>
+      simp only [List.map_cons, zipPad, cellAt]
+      rw [ih hn.2 []]
+      congr 1
+      apply List.map_congr_left
+      intro c hc
+      cases xs <;> simp [cellAt]
+    | cons y ys =>
+      simp only [List.map_cons, zipPad, cellAt, if_true]
+      rw [ih hn.2 ys]
+      congr 1
+      apply List.map_congr_left
+      intro c hc
+      simp [hne c hc]
+
+theorem recOf_same (o : Opts) (names : List Key) (hn : names.Nodup) (cells : List Str) :
+    recOf o names names cells = zipPad names cells := by
+  unfold recOf
+  simp [dictOf_zipPad names cells hn]
+
+/-- selection of the columns `sel` (in that order) out of the header `h` -/
+theorem recOf_select (o : Opts) (hru : o.returnUnknown = false) (h sel : List Str)
+    (hh : h.Nodup) (hs : sel.Nodup) (cells : List Str) :
+    recOf o (h.map Key.name) (sel.map Key.name) cells
+      = sel.map (fun c => (Key.name c, cellAt h cells c)) := by
+  by_cases e : sel = h
+  · subst e
+    rw [recOf_same o _ (nodup_map_name sel hs), zipPad_eq_cellAt sel hs]
+  · have hne : (sel.map Key.name != h.map Key.name) = true := by
+      simp only [bne_iff_ne, ne_eq]
+      intro hm
+      exact e (map_name_injective _ _ hm)
+    unfold recOf
+    simp only [hru, Bool.not_false, Bool.true_and, hne, if_true]
+    rw [dictOf_zipPad _ _ (nodup_map_name h hh), project_nodup _ _ (nodup_map_name sel hs)]
+    rw [List.map_map]
+    apply List.map_congr_left
+    intro c _
+    simp [dictGet_zipPad]
+
+theorem dataRows_cons_ne (r : List Str) (rows : List (List Str)) (h : r ≠ []) :
+    dataRows (r :: rows) = r :: dataRows rows := by
+  cases r with
+  | nil => exact absurd rfl h
+  | cons _ _ => simp [dataRows]
+
+theorem saveCsv_header (d : Char) (eol : Str) (hdr : List Str) (rows : List (List Str))
+    (h : hdr ≠ []) : saveCsv d eol (some hdr) rows = written d eol (hdr :: rows) := by
+  cases hdr with
+  | nil => exact absurd rfl h
+  | cons _ _ => simp [saveCsv, written]
+
+theorem saveCsv_none (d : Char) (eol : Str) (rows : List (List Str)) :
+    saveCsv d eol none rows = written d eol rows := by
+  simp [saveCsv, written]
+
+/-! ### the documented option modes (they are part of the statements of `Props/C14.lean`) -/
+
+/-- the documented ways of taking the header **from the file** (`column_names` not given) -/
+inductive FromFile (o : Opts) (hdr : List Str) : Prop
+  /-- `header_is_mandatory=True` -/
+  | mandatory : o.containsHeader = .none → o.mandatory = .bool true → FromFile o hdr
+  /-- legacy `contains_header=True`, `header_is_mandatory` left at `None` (fix C14-a) or `True` -/
+  | legacy : o.containsHeader = .bool true → (o.mandatory = .none ∨ o.mandatory = .bool true) →
+      FromFile o hdr
+  /-- `contains_header="<first column name>"` -/
+  | first (s : Str) : o.containsHeader = .str s → s ≠ [] → hdr.head? = some s →
+      o.mandatory ≠ .other → FromFile o hdr
+  /-- `contains_header=[mandatory names]`, all of them in the header -/
+  | names (l : List Str) : o.containsHeader = .list l → l ≠ [] → l.Nodup → (∀ m ∈ l, m ∈ hdr) →
+      o.mandatory ≠ .other → FromFile o hdr
+
+theorem fromFile_norm (o : Opts) (hdr : List Str) (hcn : o.columnNames = .none)
+    (hm : FromFile o hdr) :
+    ∃ n, normalise o = .ok n ∧ n.cn = none ∧ headerDecision n o hdr = .ok (some true) := by
+  cases hm with
+  | mandatory h1 h2 =>
+    refine ⟨{ mand := true, cn := none, ch := .none }, ?_, rfl, ?_⟩
+    · simp [normalise, hcn, h1, h2, bind, Except.bind, pure, Except.pure, mandDefault, cnAsCh]
+    · simp [headerDecision, pure, Except.pure]
+  | legacy h1 h2 =>
+    refine ⟨{ mand := true, cn := none, ch := .none }, ?_, rfl, ?_⟩
+    · rcases h2 with h2 | h2 <;>
+        simp [normalise, hcn, h1, h2, bind, Except.bind, pure, Except.pure, cnAsCh]
+    · simp [headerDecision, pure, Except.pure]
+  | first s h1 h2 h3 h4 =>
+    refine ⟨{ mand := mandDefault o.mandatory, cn := none, ch := .str s }, ?_, rfl, ?_⟩
+    · cases s with
+      | nil => exact absurd rfl h2
+      | cons c cs =>
+        simp [normalise, hcn, h1, h4, bind, Except.bind, pure, Except.pure]
+    · cases hdr with
+      | nil => simp at h3
+      | cons x xs =>
+        simp at h3
+        subst h3
+        cases x with
+        | nil => exact absurd rfl h2
+        | cons _ _ => simp [headerDecision, pure, Except.pure]
+  | names l h1 h2 h3 h5 h4 =>
+    refine ⟨{ mand := mandDefault o.mandatory, cn := none, ch := .list l }, ?_, rfl, ?_⟩
+    · cases l with
+      | nil => exact absurd rfl h2
+      | cons c cs =>
+        have hd : hasDup (c :: cs) = false := (hasDup_eq_false _).2 h3
+        simp [normalise, hcn, h1, h4, hd, bind, Except.bind, pure, Except.pure]
+    · cases l with
+      | nil => exact absurd rfl h2
+      | cons c cs =>
+        have : (c :: cs).any (fun m => !hdr.contains m) = false := by
+          rw [List.any_eq_false]
+          intro m hm
+          simp [h5 m hm]
+        simp only [headerDecision, List.isEmpty_cons, Bool.false_eq_true, if_false, this]
+        rfl
+
+
+/-- header given by the caller **and** present in the file: `column_names = sel` (unique names, all
+in the file's header), optionally with a consistent `contains_header` -/
+inductive Given (o : Opts) (sel hdr : List Str) : Prop
+  /-- `column_names=sel` alone, or with legacy `contains_header=True`/`header_is_mandatory=True` -/
+  | plain : o.columnNames = .list sel →
+      (o.containsHeader = .none ∨ o.containsHeader = .bool (mandDefault o.mandatory)
+        ∨ (o.containsHeader = .bool true ∧ o.mandatory = .none)) →
+      o.mandatory ≠ .other → Given o sel hdr
+
+theorem given_norm (o : Opts) (sel hdr : List Str) (hs : sel ≠ []) (hnd : sel.Nodup)
+    (hsub : ∀ m ∈ sel, m ∈ hdr) (hm : Given o sel hdr) :
+    ∃ n, normalise o = .ok n ∧ n.cn = some sel ∧ headerDecision n o hdr = .ok (some true) := by
+  cases hm with
+  | plain h1 h2 h3 =>
+    cases sel with
+    | nil => exact absurd rfl hs
+    | cons c cs =>
+      have hd : hasDup (c :: cs) = false := (hasDup_eq_false _).2 hnd
+      have hany : (c :: cs).any (fun m => !hdr.contains m) = false := by
+        rw [List.any_eq_false]
+        intro m hm
+        simp [hsub m hm]
+      have hdec : ∀ b, headerDecision { mand := b, cn := some (c :: cs), ch := .list (c :: cs) } o hdr
+          = .ok (some true) := by
+        intro b
+        simp only [headerDecision, List.isEmpty_cons, Bool.false_eq_true, if_false, hany]
+        rfl
+      rcases h2 with h2 | h2 | ⟨h2, h4⟩
+      · refine ⟨{ mand := mandDefault o.mandatory, cn := some (c :: cs), ch := .list (c :: cs) }, ?_, rfl, hdec _⟩
+        simp [normalise, h1, h2, h3, hd, bind, Except.bind, pure, Except.pure, cnAsCh]
+      · refine ⟨{ mand := mandDefault o.mandatory, cn := some (c :: cs), ch := .list (c :: cs) }, ?_, rfl, hdec _⟩
+        cases hmm : o.mandatory with
+        | other => exact absurd hmm h3
+        | none => simp [normalise, h1, h2, hmm, hd, bind, Except.bind, pure, Except.pure, cnAsCh, mandDefault]
+        | bool b => simp [normalise, h1, h2, hmm, hd, bind, Except.bind, pure, Except.pure, cnAsCh, mandDefault]
+      · refine ⟨{ mand := true, cn := some (c :: cs), ch := .list (c :: cs) }, ?_, rfl, hdec _⟩
+        simp [normalise, h1, h2, h4, hd, bind, Except.bind, pure, Except.pure, cnAsCh]
+
+/-- no header is announced: nothing given, or legacy `contains_header=False`, or
+`header_is_mandatory=False` -/
+def NoHeaderOpts (o : Opts) : Prop :=
+  o.columnNames = .none ∧ (o.containsHeader = .none ∨ o.containsHeader = .bool false)
+    ∧ (o.mandatory = .none ∨ o.mandatory = .bool false)
+
+theorem noHeader_norm (o : Opts) (h : NoHeaderOpts o) (first : List Str) :
+    ∃ n, normalise o = .ok n ∧ n.cn = none ∧ headerDecision n o first = .ok (some false) := by
+  obtain ⟨h1, h2, h3⟩ := h
+  refine ⟨{ mand := false, cn := none, ch := .none }, ?_, rfl, ?_⟩
+  · rcases h2 with h2 | h2 <;> rcases h3 with h3 | h3 <;>
+      simp [normalise, h1, h2, h3, bind, Except.bind, pure, Except.pure, cnAsCh, mandDefault]
+  · simp [headerDecision, pure, Except.pure]
+
+/-- names given by the caller (`column_names = names`, unique), with `mand` as the value of
+`header_is_mandatory` (`none` = left at its default) and nothing else about the header -/
+def NamesOnly (o : Opts) (names : List Str) (mand : MandArg) : Prop :=
+  o.columnNames = .list names ∧ o.containsHeader = .none ∧ o.mandatory = mand
+
+theorem namesOnly_norm (o : Opts) (names : List Str) (mand : MandArg) (hm : mand ≠ .other)
+    (hs : names ≠ []) (hnd : names.Nodup) (h : NamesOnly o names mand) :
+    normalise o = .ok { mand := mandDefault mand, cn := some names, ch := .list names } := by
+  obtain ⟨h1, h2, h3⟩ := h
+  cases names with
+  | nil => exact absurd rfl hs
+  | cons c cs =>
+    have hd : hasDup (c :: cs) = false := (hasDup_eq_false _).2 hnd
+    subst h3
+    simp [normalise, h1, h2, hm, hd, bind, Except.bind, pure, Except.pure, cnAsCh]
+
+/-- the first line lacks one of the expected names -/
+theorem headerDecision_missing (o : Opts) (b : Bool) (names first : List Str) (hs : names ≠ [])
+    (hmiss : ∃ m ∈ names, m ∉ first) :
+    headerDecision { mand := b, cn := some names, ch := .list names } o first
+      = if b then (if o.raiseExc then .error .ReferenceError else .ok none) else .ok (some false) := by
+  have hany : names.any (fun m => !first.contains m) = true := by
+    rw [List.any_eq_true]
+    obtain ⟨m, hm, hnm⟩ := hmiss
+    exact ⟨m, hm, by simp [hnm]⟩
+  cases names with
+  | nil => exact absurd rfl hs
+  | cons c cs =>
+    simp only [headerDecision, List.isEmpty_cons, Bool.false_eq_true, if_false, hany, if_true]
+    cases b <;> cases o.raiseExc <;> rfl
+
+/-! ### the outcome in closed form -/
+
+theorem outcome_header (o : Opts) (n : Norm) (h : List Str) (rows : List (List Str))
+    (hdec : headerDecision n o h = .ok (some true)) (hnd : h.Nodup) (hcn : n.cn = none) :
+    outcome o n h rows = .ok (rows.map (zipPad (h.map Key.name))) := by
+  unfold outcome
+  simp only [hdec, (hasDup_eq_false h).2 hnd, Bool.and_false, Bool.false_eq_true, if_false]
+  congr 1
+  apply List.map_congr_left
+  intro r _
+  have : headerCn n h = h.map Key.name := by simp [headerCn, hcn]
+  rw [this, recOf_same o _ (nodup_map_name h hnd)]
+
+theorem outcome_select (o : Opts) (hru : o.returnUnknown = false) (n : Norm) (h sel : List Str)
+    (rows : List (List Str)) (hdec : headerDecision n o h = .ok (some true)) (hnd : h.Nodup)
+    (hcn : n.cn = some sel) (hs : sel.Nodup) :
+    outcome o n h rows
+      = .ok (rows.map (fun r => sel.map (fun c => (Key.name c, cellAt h r c)))) := by
+  unfold outcome
+  simp only [hdec, (hasDup_eq_false h).2 hnd, Bool.and_false, Bool.false_eq_true, if_false]
+  congr 1
+  apply List.map_congr_left
+  intro r _
+  have : headerCn n h = sel.map Key.name := by simp [headerCn, hcn]
+  rw [this, recOf_select o hru h sel hnd hs]
+
+theorem outcome_data (o : Opts) (n : Norm) (h : List Str) (rows : List (List Str))
+    (hdec : headerDecision n o h = .ok (some false)) (hnd : (dataNames n h).Nodup) :
+    outcome o n h rows = .ok ((h :: rows).map (zipPad (dataNames n h))) := by
+  unfold outcome
+  simp only [hdec]
+  congr 1
+  apply List.map_congr_left
+  intro r _
+  rw [recOf_same o _ hnd]
+
+/-- `normalise` reads only the three header arguments -/
+theorem normalise_binary (o : Opts) (b : Bool) : normalise { o with binary := b } = normalise o := rfl
+
+theorem headerDecision_binary (n : Norm) (o : Opts) (b : Bool) (h : List Str) :
+    headerDecision n { o with binary := b } h = headerDecision n o h := rfl
+
+theorem loadLines_norm_error (o : Opts) (e : PyErr) (h : normalise o = .error e) (ls : List Str) :
+    loadLines o ls = .error e := by
+  unfold loadLines
+  simp [h, bind, Except.bind]
+
+theorem zipPad_length (names : List Key) (row : List Str) :
+    (zipPad names row).length = names.length := by
+  induction names generalizing row with
+  | nil => simp [zipPad]
+  | cons k ks ih => cases row <;> simp [zipPad, ih]
+
+theorem zipPad_getElem? (names : List Key) (row : List Str) (i : Nat) :
+    (zipPad names row)[i]? = names[i]?.map (fun k => (k, row[i]?)) := by
+  induction names generalizing row i with
+  | nil => simp [zipPad]
+  | cons k ks ih =>
+    cases row with
+    | nil =>
+      cases i with
+      | zero => simp [zipPad]
+      | succ i => simp [zipPad, ih]
+    | cons c cs =>
+      cases i with
+      | zero => simp [zipPad]
+      | succ i => simp [zipPad, ih]
+
 end N0.CsvFile
